@@ -18,6 +18,7 @@ CONSTANTS
   Allowed <- BootCalls
   ReopenModes <- RestartOnly
   Depth = 1
+  Mode = "all"
   FinalList = FALSE
 INVARIANTS Emit
 CHECK_DEADLOCK FALSE
